@@ -629,6 +629,14 @@ def _run_program(ctx, prog, lb, gen_opts, n_values, stats, judge_cases, judge_me
             continue
         for i in range(n_values):
             plan.append((k, fn, s, L.gen_struct_value(rng, p, s)))
+        if s["kind"] == "union" and s["fields"]:
+            # values the emitted type can hold but the IDL forbids: no field / two fields set (Write must refuse)
+            plan.append((k, fn, s, L.new_value(p, s)))
+            if len(s["fields"]) >= 2:
+                v2 = L.new_value(p, s)
+                for f in rng.sample(s["fields"], 2):
+                    v2[f["id"]] = L.gen_value(rng, p, f["type"], 3)
+                plan.append((k, fn, s, v2))
     protos = ["binary", "compact", "json"]
     # ---- phase 1: generated Write under the three protocols, New, round trip
     reqs = []
@@ -864,7 +872,7 @@ def run(ctx, br):
     if quick:
         progs = [("small", "", 6), ("small", "", 6), ("medium", "", 4), ("small", "slim", 5)]
     else:
-        progs = [(("small", "medium", "large")[i % 3], "slim" if i % 5 == 4 else "", 8 if i % 3 < 2 else 5) for i in range(45)]
+        progs = [(("small", "medium", "large")[i % 3], "slim" if i % 5 == 4 else "", 7 if i % 3 < 2 else 4) for i in range(33)]
     nprog = 0
     sizes = collections.Counter()
     for i, (size, opts, nvals) in enumerate(progs):
